@@ -1,4 +1,5 @@
 import TempestVerif.Model.RecSM
+import TempestVerif.Model.RecSM2
 import TempestVerif.Props.C07
 import Mathlib.Tactic
 /-
@@ -273,16 +274,18 @@ theorem build_coh {us : List U} (hin : ∀ v ∈ us, inCube v) :
   ⟨rfl, rfl, hin, rfl⟩
 
 /-- Mutator.run at beta = 0: fresh draws; −inf rows overwritten by whole copies of picked rows -/
-theorem warmup_inv (hg : GateOk cfg) (isInf : L → Bool) {s s' : St U X L B} (us : List U) (picks : List Nat)
+theorem warmupKept_inv (hg : GateOk cfg) (isInf : L → Bool) {s s' : St U X L B} (us : List U) (picks : List Nat)
     (hdraw : ∀ v ∈ us, inCube v) (hs : Inv T Lk inCube cfg s)
-    (h : warmup cfg T Lk isInf us picks s = some s') : Live T Lk inCube cfg s' := by
+    (h : warmupKept cfg T Lk isInf us picks s = some s') : Live T Lk inCube cfg s' := by
   obtain ⟨-, hh⟩ := hs
-  unfold warmup at h
+  unfold warmupKept at h
   simp only at h
   split at h
   · injection h with h; subst h
     exact ⟨⟨us, _, _, rfl, rfl, rfl, build_coh T Lk inCube cfg hdraw⟩, hh⟩
-  · have hcube' : ∀ v ∈ scatterFrom us (infIdx isInf (logLike cfg Lk (us.map T)).1) picks, inCube v :=
+  · split at h
+    · cases h
+    have hcube' : ∀ v ∈ scatterFrom us (infIdx isInf (logLike cfg Lk (us.map T)).1) picks, inCube v :=
       fun v hv => hdraw v (scatterFrom_mem _ _ _ v hv)
     by_cases hk : cfg.lkBlobs = true
     · have hgt : cfg.gate (logLike cfg Lk (us.map T)).2 = true := by
@@ -314,16 +317,50 @@ theorem warmup_inv (hg : GateOk cfg) (isInf : L → Bool) {s s' : St U X L B} (u
           rw [scatterFrom_map, scatterFrom_map]
         · simp [blobsOf, hk']
 
+theorem drawLoop_mem (allInfB : List U → Bool) (n : Nat) (rest : List (List U)) (b : List U) (drawn : Nat)
+    {kept : List U × Nat} (h : drawLoop allInfB n rest b drawn = some kept) :
+    (kept.1 = b ∨ kept.1 ∈ rest) ∧ allInfB kept.1 = false := by
+  induction rest generalizing b drawn with
+  | nil =>
+    simp only [drawLoop] at h
+    split at h
+    · cases h
+    · rename_i hb; injection h with h; subst h; exact ⟨Or.inl rfl, by simpa using hb⟩
+  | cons b' bs ih =>
+    simp only [drawLoop] at h
+    split at h
+    · split at h
+      · cases h
+      · rcases ih b' _ h with ⟨h1 | h1, h2⟩
+        · exact ⟨Or.inr (by simp [h1]), h2⟩
+        · exact ⟨Or.inr (by simp [h1]), h2⟩
+    · rename_i hb; injection h with h; subst h; exact ⟨Or.inl rfl, by simpa using hb⟩
+
+/-- Mutator.run at beta = 0 (with the redraw loop): the batch that is kept is one of the drawn batches -/
+theorem warmup_inv (hg : GateOk cfg) (isInf : L → Bool) {s s' : St U X L B} (batches : List (List U)) (picks : List Nat)
+    (hdraw : ∀ b ∈ batches, ∀ v ∈ b, inCube v) (hs : Inv T Lk inCube cfg s)
+    (h : warmupR cfg T Lk isInf batches picks s = some s') : Live T Lk inCube cfg s' := by
+  cases batches with
+  | nil => simp [warmupR] at h
+  | cons b0 rest =>
+    simp only [warmupR, Option.bind_eq_some_iff] at h
+    obtain ⟨kept, hk, h⟩ := h
+    have hm := (drawLoop_mem _ _ _ _ _ hk).1
+    refine warmupKept_inv T Lk inCube cfg hg isInf kept.1 picks ?_ hs h
+    rcases hm with hm | hm
+    · rw [hm]; exact hdraw b0 (by simp)
+    · exact hdraw kept.1 (by simp [hm])
+
 /-- the runner's private arrays are coherent -/
 def RunCoh (r : Runner U X L B) : Prop := CohArr T Lk inCube cfg r.u r.x r.l r.b
 
 /-- one pass of the MCMC loop: proposals that fail the bounds check are replaced by the walker's own position, the rest
     passed it, so every evaluated point lies in the cube; the accept mask is applied to all arrays at once -/
-theorem mcmcStep_inv (fold : U → U) (chk : U → Bool) (hfold : ∀ p, chk (fold p) = true → inCube (fold p))
+theorem mcmcStep_inv (negInf : L → Bool) (fold : U → U) (chk : U → Bool) (hfold : ∀ p, chk (fold p) = true → inCube (fold p))
     {r r' : Runner U X L B} (st : Step U) (hr : RunCoh T Lk inCube cfg r)
-    (h : mcmcStep cfg T Lk fold chk r st = some r') : RunCoh T Lk inCube cfg r' := by
+    (h : mcmcStepR cfg T Lk negInf fold chk r st = some r') : RunCoh T Lk inCube cfg r' := by
   obtain ⟨hx, hl, hcube, hb⟩ := hr
-  unfold mcmcStep at h
+  unfold mcmcStepR at h
   split at h
   · cases h
   · simp only at h
@@ -367,24 +404,24 @@ theorem mcmcStep_inv (fold : U → U) (chk : U → Bool) (hfold : ∀ p, chk (fo
         rw [maskSet_map, maskSet_map]
       · simp [blobsOf, hk']
 
-theorem mcmcSteps_inv (fold : U → U) (chk : U → Bool) (hfold : ∀ p, chk (fold p) = true → inCube (fold p))
+theorem mcmcSteps_inv (negInf : L → Bool) (fold : U → U) (chk : U → Bool) (hfold : ∀ p, chk (fold p) = true → inCube (fold p))
     (sts : List (Step U)) {r r' : Runner U X L B} (hr : RunCoh T Lk inCube cfg r)
-    (h : mcmcSteps cfg T Lk fold chk r sts = some r') : RunCoh T Lk inCube cfg r' := by
+    (h : mcmcStepsR cfg T Lk negInf fold chk r sts = some r') : RunCoh T Lk inCube cfg r' := by
   induction sts generalizing r with
-  | nil => simp only [mcmcSteps, Option.some.injEq] at h; subst h; exact hr
+  | nil => simp only [mcmcStepsR, Option.some.injEq] at h; subst h; exact hr
   | cons st sts ih =>
-    simp only [mcmcSteps, Option.bind_eq_some_iff] at h
+    simp only [mcmcStepsR, Option.bind_eq_some_iff] at h
     obtain ⟨r1, h1, h2⟩ := h
-    exact ih (mcmcStep_inv T Lk inCube cfg fold chk hfold st hr h1) h2
+    exact ih (mcmcStep_inv T Lk inCube cfg negInf fold chk hfold st hr h1) h2
 
 /-- Mutator.run at beta > 0 -/
-theorem mutate_inv (hg : GateOk cfg) (fold : U → U) (chk : U → Bool)
+theorem mutate_inv (hg : GateOk cfg) (negInf : L → Bool) (fold : U → U) (chk : U → Bool)
     (hfold : ∀ p, chk (fold p) = true → inCube (fold p)) (sts : List (Step U)) {s s' : St U X L B}
-    (hs : Inv T Lk inCube cfg s) (h : mutate cfg T Lk fold chk sts s = some s') : Live T Lk inCube cfg s' := by
+    (hs : Inv T Lk inCube cfg s) (h : mutateR cfg T Lk negInf fold chk sts s = some s') : Live T Lk inCube cfg s' := by
   obtain ⟨hc, hh⟩ := hs
   rcases hc with rfl | ⟨u, x, l, e1, e2, e3, hco⟩
-  · simp [mutate, init] at h
-  · unfold mutate at h
+  · simp [mutateR, init] at h
+  · unfold mutateR at h
     rw [e1, e2, e3] at h
     simp only [Option.bind_eq_some_iff] at h
     obtain ⟨r, hrun, h⟩ := h
@@ -395,7 +432,7 @@ theorem mutate_inv (hg : GateOk cfg) (fold : U → U) (chk : U → Bool)
         rw [this]; simp
     rw [hb0] at hrun
     have hr : RunCoh T Lk inCube cfg r :=
-      mcmcSteps_inv T Lk inCube cfg fold chk hfold sts (r := ⟨u, x, l, s.cur.b⟩) hco hrun
+      mcmcSteps_inv T Lk inCube cfg negInf fold chk hfold sts (r := ⟨u, x, l, s.cur.b⟩) hco hrun
     obtain ⟨rx, rl, rc, rb⟩ := hr
     by_cases hk : cfg.lkBlobs = true
     · have hgt : cfg.gate s.cur.b = true := by rw [hco.2.2.2]; exact gate_of_coh Lk cfg hg hk
@@ -423,16 +460,16 @@ theorem commit_live {s : St U X L B} (hs : Live T Lk inCube cfg s) : Live T Lk i
   exact histInv_append T Lk inCube cfg hh hco
 
 /-- the hypotheses about what is on the tape of one iteration: the prior draws lie in the cube (`np.random.rand`) -/
-def TapeOk (t : Tape U) : Prop := t.warm = true → ∀ v ∈ t.draws, inCube v
+def TapeOk (t : TapeR U) : Prop := t.warm = true → ∀ b ∈ t.draws, ∀ v ∈ b, inCube v
 
 /-- C07, "at every step boundary of an iteration": the state after `resampler.run`, after `mutator.run` and after the
     commit are all coherent (current set and every committed batch) -/
 theorem C07_sm_step_boundaries (hg : GateOk cfg) (isInf : L → Bool) (fold : U → U) (chk : U → Bool)
-    (hfold : ∀ p, chk (fold p) = true → inCube (fold p)) {s : St U X L B} {t : Tape U}
+    (hfold : ∀ p, chk (fold p) = true → inCube (fold p)) {s : St U X L B} {t : TapeR U}
     (ht : TapeOk inCube t) (hs : Inv T Lk inCube cfg s) {r : St U X L B × St U X L B × St U X L B}
-    (h : iterateStates cfg T Lk isInf fold chk s t = some r) :
+    (h : iterateStatesR cfg T Lk isInf fold chk s t = some r) :
     Inv T Lk inCube cfg r.1 ∧ Live T Lk inCube cfg r.2.1 ∧ Live T Lk inCube cfg r.2.2 := by
-  unfold iterateStates at h
+  unfold iterateStatesR at h
   by_cases hw : t.warm = true
   · rw [if_pos hw] at h
     simp only [Option.map_eq_some_iff] at h
@@ -443,16 +480,16 @@ theorem C07_sm_step_boundaries (hg : GateOk cfg) (isInf : L → Bool) (fold : U 
     simp only [Option.bind_eq_some_iff, Option.map_eq_some_iff] at h
     obtain ⟨s1, h1, s2, h2, rfl⟩ := h
     have l1 := resample_inv T Lk inCube cfg hg t.idx hs h1
-    have l2 := mutate_inv T Lk inCube cfg hg fold chk hfold t.steps l1.inv h2
+    have l2 := mutate_inv T Lk inCube cfg hg isInf fold chk hfold t.steps l1.inv h2
     exact ⟨l1.inv, l2, commit_live T Lk inCube cfg l2⟩
 
 /-- `Sampler.sample()`: the new state is coherent and the dictionary handed to the user is its current record set -/
 theorem C07_sm_sample (hg : GateOk cfg) (isInf : L → Bool) (fold : U → U) (chk : U → Bool)
-    (hfold : ∀ p, chk (fold p) = true → inCube (fold p)) {s s' : St U X L B} {t : Tape U} {ret : Cur U X L B}
+    (hfold : ∀ p, chk (fold p) = true → inCube (fold p)) {s s' : St U X L B} {t : TapeR U} {ret : Cur U X L B}
     (ht : TapeOk inCube t) (hs : Inv T Lk inCube cfg s)
-    (h : iterate cfg T Lk isInf fold chk s t = some (s', ret)) :
+    (h : iterateR cfg T Lk isInf fold chk s t = some (s', ret)) :
     Live T Lk inCube cfg s' ∧ CurCoh T Lk inCube cfg ret := by
-  simp only [iterate, Option.map_eq_some_iff, Prod.mk.injEq] at h
+  simp only [iterateR, Option.map_eq_some_iff, Prod.mk.injEq] at h
   obtain ⟨r, hr, rfl, rfl⟩ := h
   have := (C07_sm_step_boundaries T Lk inCube cfg hg isInf fold chk hfold ht hs hr).2.2
   exact ⟨this, this.1⟩
@@ -460,17 +497,17 @@ theorem C07_sm_sample (hg : GateOk cfg) (isInf : L → Bool) (fold : U → U) (c
 /-- C07 over a whole run: for EVERY number of iterations and every tape, the final state is coherent and so is every
     dictionary `sample()` returned on the way -/
 theorem C07_sm_run (hg : GateOk cfg) (isInf : L → Bool) (fold : U → U) (chk : U → Bool)
-    (hfold : ∀ p, chk (fold p) = true → inCube (fold p)) (ts : List (Tape U)) {s s' : St U X L B}
+    (hfold : ∀ p, chk (fold p) = true → inCube (fold p)) (ts : List (TapeR U)) {s s' : St U X L B}
     {rets : List (Cur U X L B)} (hts : ∀ t ∈ ts, TapeOk inCube t) (hs : Inv T Lk inCube cfg s)
-    (h : runIters cfg T Lk isInf fold chk s ts = some (s', rets)) :
+    (h : runItersR cfg T Lk isInf fold chk s ts = some (s', rets)) :
     Inv T Lk inCube cfg s' ∧ rets.length = ts.length ∧ ∀ c ∈ rets, CurCoh T Lk inCube cfg c := by
   induction ts generalizing s rets with
   | nil =>
-    simp only [runIters, Option.some.injEq, Prod.mk.injEq] at h
+    simp only [runItersR, Option.some.injEq, Prod.mk.injEq] at h
     obtain ⟨rfl, rfl⟩ := h
     exact ⟨hs, rfl, by simp⟩
   | cons t ts ih =>
-    simp only [runIters, Option.bind_eq_some_iff, Option.map_eq_some_iff, Prod.mk.injEq] at h
+    simp only [runItersR, Option.bind_eq_some_iff, Option.map_eq_some_iff, Prod.mk.injEq] at h
     obtain ⟨⟨s1, c1⟩, h1, ⟨s2, cs⟩, h2, rfl, rfl⟩ := h
     obtain ⟨l1, hc1⟩ := C07_sm_sample T Lk inCube cfg hg isInf fold chk hfold (hts t (by simp)) hs h1
     obtain ⟨i2, hlen, hall⟩ := ih (fun t' ht' => hts t' (by simp [ht'])) l1.inv h2
@@ -482,9 +519,9 @@ theorem C07_sm_run (hg : GateOk cfg) (isInf : L → Bool) (fold : U → U) (chk 
 
 /-- … in particular from a freshly constructed sampler -/
 theorem C07_sm_run_fresh (hg : GateOk cfg) (isInf : L → Bool) (fold : U → U) (chk : U → Bool)
-    (hfold : ∀ p, chk (fold p) = true → inCube (fold p)) (ts : List (Tape U)) {s' : St U X L B}
+    (hfold : ∀ p, chk (fold p) = true → inCube (fold p)) (ts : List (TapeR U)) {s' : St U X L B}
     {rets : List (Cur U X L B)} (hts : ∀ t ∈ ts, TapeOk inCube t)
-    (h : runIters cfg T Lk isInf fold chk init ts = some (s', rets)) :
+    (h : runItersR cfg T Lk isInf fold chk init ts = some (s', rets)) :
     Inv T Lk inCube cfg s' ∧ rets.length = ts.length ∧ ∀ c ∈ rets, CurCoh T Lk inCube cfg c :=
   C07_sm_run T Lk inCube cfg hg isInf fold chk hfold ts hts (C07_sm_init T Lk inCube cfg) h
 
@@ -702,17 +739,17 @@ theorem C07_sm_resample_whole_rows (cfg : Cfg) {s s' : St U X L B} (idx : List N
     subst h
     exact ⟨pu, px, pl, u', x', l', hpu, hpx, hpl, rfl, rfl, rfl, rfl, rows, fun ht => absurd ht hg, fun _ => rfl⟩
 
-/-- Mutator.run at beta = 0: after the replacement of the −inf draws, row k of EVERY array is row `srcOf … k` of the freshly
+/-- Mutator.run at beta = 0, on the batch kept by the redraw loop: after the replacement of the −inf draws, row k of EVERY array is row `srcOf … k` of the freshly
     drawn arrays — one source row for u, x, logl (and blobs whenever the gate is open), never a mixture -/
 theorem C07_sm_warmup_whole_rows (cfg : Cfg) (T : U → X) (Lk : X → L × B) (isInf : L → Bool) (us : List U)
-    (picks : List Nat) {s s' : St U X L B} (h : warmup cfg T Lk isInf us picks s = some s') :
+    (picks : List Nat) {s s' : St U X L B} (h : warmupKept cfg T Lk isInf us picks s = some s') :
     ∃ (src : Nat → Nat) (u' : List U) (x' : List X) (l' : List L),
       s'.cur.u = some u' ∧ s'.cur.x = some x' ∧ s'.cur.l = some l' ∧ s'.hist = s.hist ∧
       ∀ k, k < us.length →
         u'[k]? = us[src k]? ∧ x'[k]? = (us.map T)[src k]? ∧ l'[k]? = (logLike cfg Lk (us.map T)).1[src k]? ∧
         ∀ b b', cfg.gate (logLike cfg Lk (us.map T)).2 = true → (logLike cfg Lk (us.map T)).2 = some b →
           s'.cur.b = some b' → b'[k]? = b[src k]? := by
-  unfold warmup at h
+  unfold warmupKept at h
   simp only at h
   split at h
   · injection h with h; subst h
@@ -722,7 +759,9 @@ theorem C07_sm_warmup_whole_rows (cfg : Cfg) (T : U → X) (Lk : X → L × B) (
     intro b b' _ hb hb'
     simp only at hb'
     rw [hb] at hb'; injection hb' with hb'; subst hb'; rfl
-  · set ii := infIdx isInf (logLike cfg Lk (us.map T)).1 with hii
+  · split at h
+    · cases h
+    set ii := infIdx isInf (logLike cfg Lk (us.map T)).1 with hii
     have hlx : (us.map T).length = us.length := by simp
     have hll : (logLike cfg Lk (us.map T)).1.length = us.length := by simp [logLike]
     have rowU : ∀ k, k < us.length → (scatterFrom us ii picks)[k]? = us[Props.C07.srcOf us.length ii picks k]? :=
@@ -766,15 +805,15 @@ theorem C07_sm_warmup_whole_rows (cfg : Cfg) (T : U → X) (Lk : X → L × B) (
 
 /-- one MCMC pass: row k of the runner's arrays afterwards is, under EVERY key at once, either its old row k or row k of
     the proposal arrays (`u' = substitute …`, `x' = map T u'`, `(logl', blobs') = logLike x'`) -/
-theorem C07_sm_mcmc_whole_rows (cfg : Cfg) (T : U → X) (Lk : X → L × B) (fold : U → U) (chk : U → Bool)
+theorem C07_sm_mcmc_whole_rows (cfg : Cfg) (T : U → X) (Lk : X → L × B) (negInf : L → Bool) (fold : U → U) (chk : U → Bool)
     {r r' : Runner U X L B} (st : Step U) (hx : r.x.length = r.u.length) (hl : r.l.length = r.u.length)
-    (hb : ∀ b, r.b = some b → b.length = r.u.length) (h : mcmcStep cfg T Lk fold chk r st = some r') :
+    (hb : ∀ b, r.b = some b → b.length = r.u.length) (h : mcmcStepR cfg T Lk negInf fold chk r st = some r') :
     ∃ (u' : List U), u'.length = r.u.length ∧ ∀ k : Nat,
       (r'.u[k]? = r.u[k]? ∧ r'.x[k]? = r.x[k]? ∧ r'.l[k]? = r.l[k]? ∧
         ∀ b b', r.b = some b → r'.b = some b' → b'[k]? = b[k]?) ∨
       (r'.u[k]? = u'[k]? ∧ r'.x[k]? = (u'.map T)[k]? ∧ r'.l[k]? = (logLike cfg Lk (u'.map T)).1[k]? ∧
         ∀ b b' pb, r.b = some b → r'.b = some b' → (logLike cfg Lk (u'.map T)).2 = some pb → b'[k]? = pb[k]?) := by
-  unfold mcmcStep at h
+  unfold mcmcStepR at h
   split at h
   · cases h
   · rename_i hlen
@@ -797,7 +836,8 @@ theorem C07_sm_mcmc_whole_rows (cfg : Cfg) (T : U → X) (Lk : X → L × B) (fo
     intro k
     simp only at h
     set u' := substitute (st.raw.map fold) ((st.raw.map fold).map chk) r.u with hu'
-    set mask := andMask st.acc ((st.raw.map fold).map chk) with hmask
+    set mask := andMask (andMask st.acc ((st.raw.map fold).map chk))
+      ((logLike cfg Lk (u'.map T)).1.map fun v => !negInf v) with hmask
     have hul : u'.length = r.u.length := hsublen _ _ _ (by simp [hlen.1]) (by simp [hlen.1])
     cases hrb : r.b with
     | none =>
@@ -843,6 +883,273 @@ theorem C07_sm_mcmc_whole_rows (cfg : Cfg) (T : U → X) (Lk : X → L × B) (fo
           subst this
           simpa using eb
 
+/-! ### no stored particle has an infinite log-likelihood (since /repo 959029e: for EVERY tape)
+
+  Structural: no hypothesis about `T`, `Lk`, the cube or the tape.  The warm-up keeps only a batch with a finite draw and
+  overwrites every infinite row by a row picked among the finite ones; a proposal of infinite log-likelihood is never
+  accepted; resampling and commits only copy stored rows. -/
+
+def NoInf (isInf : L → Bool) (l : List L) : Prop := ∀ v ∈ l, isInf v = false
+
+/-- neither the current set nor any committed batch holds a particle of infinite log-likelihood -/
+def Finite (isInf : L → Bool) (s : St U X L B) : Prop :=
+  (∀ l, s.cur.l = some l → NoInf isInf l) ∧ ∀ bt ∈ s.hist.l, NoInf isInf bt
+
+theorem finite_init (isInf : L → Bool) : Finite isInf (init : St U X L B) :=
+  ⟨fun l h => by simp [init] at h, fun bt h => by simp [init] at h⟩
+
+theorem finite_commit (isInf : L → Bool) {s : St U X L B} (h : Finite isInf s) : Finite isInf (commit s) := by
+  refine ⟨h.1, ?_⟩
+  intro bt hbt
+  simp only [commit] at hbt
+  cases hl : s.cur.l with
+  | none => rw [hl] at hbt; exact h.2 bt hbt
+  | some l =>
+    rw [hl] at hbt
+    rcases List.mem_append.mp hbt with hb | hb
+    · exact h.2 bt hb
+    · have : bt = l := by simpa using hb
+      rw [this]; exact h.1 l hl
+
+theorem finite_resample (isInf : L → Bool) (cfg : Cfg) {s s' : St U X L B} (idx : List Nat) (hs : Finite isInf s)
+    (h : resample cfg idx s = some s') : Finite isInf s' := by
+  obtain ⟨pu, px, pl, u', x', l', -, -, hpl, -, -, hl', hh, -, -, -⟩ := C07_sm_resample_whole_rows cfg idx h
+  have hgl : gather? pl idx = some l' := by
+    unfold resample at h
+    simp only [Option.bind_eq_some_iff] at h
+    obtain ⟨_, _, _, _, pl0, hpl0, b?, _, _, _, _, _, l0, hl0, h⟩ := h
+    rw [hpl] at hpl0; injection hpl0 with hpl0; subst hpl0
+    have : s'.cur.l = some l0 := by
+      cases b? with
+      | none => simp only [Option.some.injEq] at h; subst h; rfl
+      | some b => simp only [Option.map_eq_some_iff] at h; obtain ⟨_, _, rfl⟩ := h; rfl
+    rw [hl'] at this; injection this with this; subst this; exact hl0
+  refine ⟨?_, by rw [hh]; exact hs.2⟩
+  intro l hl v hv
+  rw [hl'] at hl; injection hl with hl; subst hl
+  obtain ⟨bt, hbt, hvb⟩ := flat?_mem hpl v (gather?_mem hgl v hv)
+  exact hs.2 bt hbt v hvb
+
+theorem infIdx_mem {isInf : L → Bool} {l : List L} {i : Nat} :
+    i ∈ infIdx isInf l ↔ ∃ v, l[i]? = some v ∧ isInf v = true := by
+  simp only [infIdx, List.mem_filter, List.mem_range]
+  constructor
+  · rintro ⟨hi, h⟩
+    rw [List.getElem?_eq_getElem hi] at h
+    exact ⟨l[i], List.getElem?_eq_getElem hi, by simpa using h⟩
+  · rintro ⟨v, hv, hiv⟩
+    have hi : i < l.length := by
+      by_contra hc; rw [List.getElem?_eq_none (by omega)] at hv; cases hv
+    exact ⟨hi, by rw [hv]; simpa using hiv⟩
+
+theorem finIdx_mem {isInf : L → Bool} {l : List L} {i : Nat} :
+    i ∈ finIdx isInf l ↔ ∃ v, l[i]? = some v ∧ isInf v = false := by
+  simp only [finIdx, List.mem_filter, List.mem_range]
+  constructor
+  · rintro ⟨hi, h⟩
+    rw [List.getElem?_eq_getElem hi] at h
+    exact ⟨l[i], List.getElem?_eq_getElem hi, by simpa using h⟩
+  · rintro ⟨v, hv, hiv⟩
+    have hi : i < l.length := by
+      by_contra hc; rw [List.getElem?_eq_none (by omega)] at hv; cases hv
+    exact ⟨hi, by rw [hv]; simpa using hiv⟩
+
+/-- where a row of `xs[tgt] = xs[src]` comes from: a hit position takes one of the sources, the others keep their own -/
+theorem srcOf_cases (n : Nat) (tgt src : List Nat) (hlen : tgt.length = src.length) (hsrc : ∀ s ∈ src, s < n) (i : Nat) :
+    (i ∈ tgt → Props.C07.srcOf n tgt src i ∈ src) ∧ (i ∉ tgt → Props.C07.srcOf n tgt src i = i) := by
+  induction tgt generalizing src with
+  | nil => cases src <;> simp [Props.C07.srcOf]
+  | cons t ts ih =>
+    cases src with
+    | nil => simp at hlen
+    | cons s ss =>
+      have hs : s < n := hsrc s (by simp)
+      obtain ⟨ih1, ih2⟩ := ih ss (by simpa using hlen) (fun q hq => hsrc q (by simp [hq]))
+      simp only [Props.C07.srcOf, hs, true_and]
+      constructor
+      · intro hi
+        by_cases hit : i = t
+        · simp [hit]
+        · rw [if_neg hit]
+          rcases List.mem_cons.mp hi with h | h
+          · exact absurd h hit
+          · exact List.mem_cons_of_mem _ (ih1 h)
+      · intro hi
+        have hit : i ≠ t := fun h => hi (by simp [h])
+        rw [if_neg hit]
+        exact ih2 (fun h => hi (List.mem_cons_of_mem _ h))
+
+theorem finite_warmupKept (isInf : L → Bool) (cfg : Cfg) (T : U → X) (Lk : X → L × B) (us : List U) (picks : List Nat)
+    {s s' : St U X L B} (hs : Finite isInf s) (h : warmupKept cfg T Lk isInf us picks s = some s') :
+    Finite isInf s' := by
+  set l := (logLike cfg Lk (us.map T)).1 with hl
+  have key : s'.hist = s.hist ∧ ∃ l', s'.cur.l = some l' ∧ NoInf isInf l' := by
+    unfold warmupKept at h
+    simp only at h
+    split at h
+    · rename_i hii
+      injection h with h; subst h
+      refine ⟨rfl, l, rfl, ?_⟩
+      intro v hv
+      obtain ⟨i, hi, rfl⟩ := List.getElem_of_mem hv
+      by_contra hc
+      have : i ∈ infIdx isInf l := infIdx_mem.mpr ⟨l[i], List.getElem?_eq_getElem hi, by simpa using hc⟩
+      rw [List.isEmpty_iff] at hii
+      rw [hl, hii] at this; cases this
+    · split at h
+      · cases h
+      · rename_i hpk
+        rw [not_or, not_not] at hpk
+        obtain ⟨hplen, hpall⟩ := hpk
+        have hpall' : ∀ p ∈ picks, p ∈ finIdx isInf l := by
+          have : (picks.all fun p => (finIdx isInf l).contains p) = true := by simpa using hpall
+          intro p hp
+          have := List.all_eq_true.mp this p hp
+          simpa using this
+        have hfin : NoInf isInf (scatterFrom l (infIdx isInf l) picks) := by
+          intro v hv
+          obtain ⟨k, hk, rfl⟩ := List.getElem_of_mem hv
+          have hkl : k < l.length := by rwa [Props.C07.scatterFrom_length] at hk
+          have hget := Props.C07.scatterFrom_get l (infIdx isInf l) picks k hkl
+          rw [List.getElem?_eq_getElem hk] at hget
+          obtain ⟨c1, c2⟩ := srcOf_cases l.length (infIdx isInf l) picks hplen.symm
+            (fun q hq => by
+              obtain ⟨v, hv, -⟩ := finIdx_mem.mp (hpall' q hq)
+              by_contra hc; rw [List.getElem?_eq_none (by omega)] at hv; cases hv) k
+          by_cases hki : k ∈ infIdx isInf l
+          · obtain ⟨w, hw, hwf⟩ := finIdx_mem.mp (hpall' _ (c1 hki))
+            rw [hw] at hget; injection hget with hget; rw [hget]; exact hwf
+          · rw [c2 hki, List.getElem?_eq_getElem hkl] at hget
+            injection hget with hget; rw [hget]
+            by_contra hc
+            exact hki (infIdx_mem.mpr ⟨l[k], List.getElem?_eq_getElem hkl, by simpa using hc⟩)
+        split at h
+        · split at h
+          · cases h
+          · injection h with h; subst h; exact ⟨rfl, _, rfl, hfin⟩
+        · injection h with h; subst h; exact ⟨rfl, _, rfl, hfin⟩
+  obtain ⟨hh, l', hl', hn⟩ := key
+  refine ⟨?_, by rw [hh]; exact hs.2⟩
+  intro l0 hl0
+  rw [hl'] at hl0; injection hl0 with hl0; subst hl0; exact hn
+
+theorem finite_warmup (isInf : L → Bool) (cfg : Cfg) (T : U → X) (Lk : X → L × B) (batches : List (List U))
+    (picks : List Nat) {s s' : St U X L B} (hs : Finite isInf s) (h : warmupR cfg T Lk isInf batches picks s = some s') :
+    Finite isInf s' := by
+  cases batches with
+  | nil => simp [warmupR] at h
+  | cons b0 rest =>
+    simp only [warmupR, Option.bind_eq_some_iff] at h
+    obtain ⟨kept, _, h⟩ := h
+    exact finite_warmupKept isInf cfg T Lk kept.1 picks hs h
+
+/-- an accept mask that carries the factor "the proposal's logl is not infinite" never lets an infinite value in -/
+theorem maskSet_andMask_mem (f : α → Bool) (c q : List α) (m : List Bool) :
+    ∀ y ∈ maskSet c q (andMask m (q.map f)), y ∈ c ∨ f y = true := by
+  induction c generalizing q m with
+  | nil => cases q <;> cases m <;> simp [maskSet, andMask]
+  | cons a c ih =>
+    cases q with
+    | nil => intro y hy; cases m <;> simp [maskSet, andMask] at hy <;> left <;> simpa using hy
+    | cons b q =>
+      cases m with
+      | nil => intro y hy; simp [maskSet, andMask] at hy; left; simpa using hy
+      | cons t m =>
+        intro y hy
+        simp only [List.map_cons, andMask, maskSet, List.mem_cons] at hy
+        rcases hy with rfl | hy
+        · by_cases hb : (t && f b) = true
+          · rw [if_pos hb]; right; simp only [Bool.and_eq_true] at hb; exact hb.2
+          · rw [if_neg hb]; left; simp
+        · rcases ih q m y hy with h | h
+          · left; simp [h]
+          · right; exact h
+
+theorem finite_mcmcStep (negInf : L → Bool) (cfg : Cfg) (T : U → X) (Lk : X → L × B) (fold : U → U) (chk : U → Bool)
+    {r r' : Runner U X L B} (st : Step U) (hr : NoInf negInf r.l)
+    (h : mcmcStepR cfg T Lk negInf fold chk r st = some r') : NoInf negInf r'.l := by
+  unfold mcmcStepR at h
+  split at h
+  · cases h
+  · simp only at h
+    have key : ∀ (m : List Bool) (q : List L), NoInf negInf (maskSet r.l q (andMask m (q.map fun v => !negInf v))) := by
+      intro m q v hv
+      rcases maskSet_andMask_mem (fun v => !negInf v) r.l q m v hv with h1 | h1
+      · exact hr v h1
+      · simpa using h1
+    cases hrb : r.b with
+    | none => rw [hrb] at h; injection h with h; subst h; exact key _ _
+    | some b =>
+      rw [hrb] at h
+      simp only at h
+      cases hll : (logLike cfg Lk (List.map T (substitute (List.map fold st.raw) (List.map chk (List.map fold st.raw)) r.u))).2 with
+      | none => rw [hll] at h; cases h
+      | some pb => rw [hll] at h; injection h with h; subst h; exact key _ _
+
+theorem finite_mcmcSteps (negInf : L → Bool) (cfg : Cfg) (T : U → X) (Lk : X → L × B) (fold : U → U) (chk : U → Bool)
+    (sts : List (Step U)) {r r' : Runner U X L B} (hr : NoInf negInf r.l)
+    (h : mcmcStepsR cfg T Lk negInf fold chk r sts = some r') : NoInf negInf r'.l := by
+  induction sts generalizing r with
+  | nil => simp only [mcmcStepsR, Option.some.injEq] at h; subst h; exact hr
+  | cons st sts ih =>
+    simp only [mcmcStepsR, Option.bind_eq_some_iff] at h
+    obtain ⟨r1, h1, h2⟩ := h
+    exact ih (finite_mcmcStep negInf cfg T Lk fold chk st hr h1) h2
+
+theorem finite_mutate (negInf : L → Bool) (cfg : Cfg) (T : U → X) (Lk : X → L × B) (fold : U → U) (chk : U → Bool)
+    (sts : List (Step U)) {s s' : St U X L B} (hs : Finite negInf s)
+    (h : mutateR cfg T Lk negInf fold chk sts s = some s') : Finite negInf s' := by
+  unfold mutateR at h
+  split at h
+  · rename_i u x l hu hx hl
+    simp only [Option.bind_eq_some_iff] at h
+    obtain ⟨r, hrun, h⟩ := h
+    have hr := finite_mcmcSteps negInf cfg T Lk fold chk sts (r := ⟨u, x, l, _⟩) (hs.1 l hl) hrun
+    have key : s'.hist = s.hist ∧ s'.cur.l = some r.l := by
+      split at h
+      · split at h
+        · cases h
+        · injection h with h; subst h; exact ⟨rfl, rfl⟩
+      · injection h with h; subst h; exact ⟨rfl, rfl⟩
+    refine ⟨?_, by rw [key.1]; exact hs.2⟩
+    intro l0 hl0
+    rw [key.2] at hl0; injection hl0 with hl0; subst hl0; exact hr
+  · cases h
+
+/-- C07 (strengthened after /repo 959029e): for EVERY run — any number of iterations, any tape, any user functions — no
+    particle of infinite log-likelihood is ever in the current set at a step boundary, in a committed batch, or in a
+    dictionary `sample()` returns.  (Before 959029e a warm-up batch without a finite draw was stored as it was:
+    `C07_old_warmup_stores_inf`.) -/
+theorem C07_sm_run_finite (isInf : L → Bool) (cfg : Cfg) (T : U → X) (Lk : X → L × B) (fold : U → U) (chk : U → Bool)
+    (ts : List (TapeR U)) {s s' : St U X L B} {rets : List (Cur U X L B)} (hs : Finite isInf s)
+    (h : runItersR cfg T Lk isInf fold chk s ts = some (s', rets)) :
+    Finite isInf s' ∧ ∀ c ∈ rets, ∀ l, c.l = some l → NoInf isInf l := by
+  induction ts generalizing s rets with
+  | nil =>
+    simp only [runItersR, Option.some.injEq, Prod.mk.injEq] at h
+    obtain ⟨rfl, rfl⟩ := h
+    exact ⟨hs, by simp⟩
+  | cons t ts ih =>
+    simp only [runItersR, Option.bind_eq_some_iff, Option.map_eq_some_iff, Prod.mk.injEq] at h
+    obtain ⟨⟨s1, c1⟩, h1, ⟨s2, cs⟩, h2, rfl, rfl⟩ := h
+    have f1 : Finite isInf s1 ∧ c1 = s1.cur := by
+      simp only [iterateR, iterateStatesR, Option.map_eq_some_iff, Prod.mk.injEq] at h1
+      obtain ⟨r, hr, rfl, rfl⟩ := h1
+      refine ⟨?_, rfl⟩
+      split at hr
+      · simp only [Option.map_eq_some_iff] at hr
+        obtain ⟨s2', hw, rfl⟩ := hr
+        exact finite_commit isInf (finite_warmup isInf cfg T Lk _ _ hs hw)
+      · simp only [Option.bind_eq_some_iff, Option.map_eq_some_iff] at hr
+        obtain ⟨sa, ha, sb, hb, rfl⟩ := hr
+        exact finite_commit isInf (finite_mutate isInf cfg T Lk fold chk _ (finite_resample isInf cfg _ hs ha) hb)
+    obtain ⟨i2, hall⟩ := ih f1.1 h2
+    refine ⟨i2, ?_⟩
+    intro c hc
+    rcases List.mem_cons.mp hc with rfl | hc
+    · rw [f1.2]; exact f1.1.1
+    · exact hall c hc
+
 /-! ### the blob gate: why /repo 9130321 was needed, and non-vacuity -/
 
 namespace Ex
@@ -855,12 +1162,13 @@ def fold : Nat → Nat := fun u => if 1000 ≤ u then u - 1000 else u
 def chk : Nat → Bool := fun u => decide (u < 100)
 def inCube : Nat → Prop := fun u => u < 100
 
-/-- two warm-up iterations (the second with a −inf draw, u = 7, replaced by a copy of row 0) and one annealing iteration
+/-- two warm-up iterations (the second first draws a batch with no finite draw — 7, 14, 21 — which is discarded and drawn
+    again; the redrawn batch has one −inf draw, u = 7, replaced by a copy of row 0) and one annealing iteration
     with a wrapped proposal (1004 ↦ 4), a proposal outside the cube (500: rejected, evaluated at the walker's own
     position) and a mixed accept mask -/
-def tapes : List (Tape Nat) :=
-  [ ⟨true, [1, 2, 3], [], [], []⟩,
-    ⟨true, [5, 7, 6], [0], [], []⟩,
+def tapes : List (TapeR Nat) :=
+  [ ⟨true, [[1, 2, 3]], [], [], []⟩,
+    ⟨true, [[7, 14, 21], [5, 7, 6]], [0], [], []⟩,
     ⟨false, [], [], [5, 5, 0], [⟨[1004, 500, 8], [true, true, true]⟩, ⟨[9, 11, 12], [false, true, false]⟩]⟩ ]
 
 def declared : Cfg := ⟨true, true, true⟩
@@ -871,7 +1179,7 @@ def declaredButNone : Cfg := ⟨true, false, true⟩
 
 /-- (history u, x, blobs; the blobs slot of each dictionary `sample()` returned) -/
 def xb (cfg : Cfg) : Option (List (List (List Nat)) × List (Option (List Nat))) :=
-  (runIters cfg T Lk isInf fold chk init tapes).map fun r => ([r.1.hist.u, r.1.hist.x, r.1.hist.b], r.2.map (·.b))
+  (runItersR cfg T Lk isInf fold chk init tapes).map fun r => ([r.1.hist.u, r.1.hist.x, r.1.hist.b], r.2.map (·.b))
 end Ex
 
 theorem ex_hfold : ∀ p, Ex.chk (Ex.fold p) = true → Ex.inCube (Ex.fold p) := by
@@ -892,15 +1200,15 @@ example : Ex.xb Ex.noBlobs =
 example : Ex.xb Ex.declaredButNone = none := by decide
 
 /-- the hypotheses of `C07_sm_run_fresh` are satisfiable: the run above meets them -/
-example : ∃ s' rets, runIters Ex.undeclared Ex.T Ex.Lk Ex.isInf Ex.fold Ex.chk init Ex.tapes = some (s', rets) ∧
+example : ∃ s' rets, runItersR Ex.undeclared Ex.T Ex.Lk Ex.isInf Ex.fold Ex.chk init Ex.tapes = some (s', rets) ∧
     Inv Ex.T Ex.Lk Ex.inCube Ex.undeclared s' ∧ ∀ c ∈ rets, CurCoh Ex.T Ex.Lk Ex.inCube Ex.undeclared c := by
   have hts : ∀ t ∈ Ex.tapes, TapeOk Ex.inCube t := by
     intro t ht _
     simp only [Ex.tapes, List.mem_cons, List.not_mem_nil, or_false] at ht
     rcases ht with rfl | rfl | rfl <;> simp [Ex.inCube]
-  cases h : runIters Ex.undeclared Ex.T Ex.Lk Ex.isInf Ex.fold Ex.chk init Ex.tapes with
+  cases h : runItersR Ex.undeclared Ex.T Ex.Lk Ex.isInf Ex.fold Ex.chk init Ex.tapes with
   | none =>
-    have : (runIters Ex.undeclared Ex.T Ex.Lk Ex.isInf Ex.fold Ex.chk init Ex.tapes).isSome = true := by decide
+    have : (runItersR Ex.undeclared Ex.T Ex.Lk Ex.isInf Ex.fold Ex.chk init Ex.tapes).isSome = true := by decide
     rw [h] at this; cases this
   | some r =>
     obtain ⟨s', rets⟩ := r
@@ -910,13 +1218,13 @@ example : ∃ s' rets, runIters Ex.undeclared Ex.T Ex.Lk Ex.isInf Ex.fold Ex.chk
 
 /-- non-vacuity of `C07_sm_posterior`: trimming to rows [0,2,4,8] of the 9-row pool, then resampling rows [3,3,1] of those;
     every returned row is one pool row under x, logl, blobs and logw alike (pool rows 8, 8, 2) -/
-example : ((runIters Ex.undeclared Ex.T Ex.Lk Ex.isInf Ex.fold Ex.chk init Ex.tapes).bind fun r =>
+example : ((runItersR Ex.undeclared Ex.T Ex.Lk Ex.isInf Ex.fold Ex.chk init Ex.tapes).bind fun r =>
       (posterior Ex.undeclared [100, 101, 102, 103, 104, 105, 106, 107, 108] (some [0, 2, 4, 8]) (some [3, 3, 1]) true r.1).map
         fun p => (p.x, p.l, p.b, p.lw))
     = some ([80, 80, 30], [81, 81, 31], some [82, 82, 32], [108, 108, 102]) := by decide
 
 /-- an out-of-range index (IndexError) makes `posterior` fail instead of returning misaligned arrays -/
-example : ((runIters Ex.undeclared Ex.T Ex.Lk Ex.isInf Ex.fold Ex.chk init Ex.tapes).bind fun r =>
+example : ((runItersR Ex.undeclared Ex.T Ex.Lk Ex.isInf Ex.fold Ex.chk init Ex.tapes).bind fun r =>
       (posterior Ex.undeclared [100, 101, 102, 103, 104, 105, 106, 107, 108] (some [0, 9]) none true r.1).map
         fun p => p.x) = none := by decide
 
@@ -925,7 +1233,7 @@ example : ((runIters Ex.undeclared Ex.T Ex.Lk Ex.isInf Ex.fold Ex.chk init Ex.ta
     likelihood's blobs of the committed x: the −inf replacement, the resampling and the accept mask all leave the blobs
     behind.  So `GateOk` cannot be dropped from the run theorems. -/
 theorem C07_old_gate_stale :
-    ∃ s' rets, runIters Ex.undeclaredOld Ex.T Ex.Lk Ex.isInf Ex.fold Ex.chk init Ex.tapes = some (s', rets) ∧
+    ∃ s' rets, runItersR Ex.undeclaredOld Ex.T Ex.Lk Ex.isInf Ex.fold Ex.chk init Ex.tapes = some (s', rets) ∧
       (∀ t ∈ Ex.tapes, TapeOk Ex.inCube t) ∧
       s'.hist.x = [[10, 20, 30], [50, 50, 60], [40, 110, 80]] ∧
       s'.hist.b = [[12, 22, 32], [52, 72, 62], [52, 72, 62]] ∧
@@ -934,15 +1242,15 @@ theorem C07_old_gate_stale :
     intro t ht _
     simp only [Ex.tapes, List.mem_cons, List.not_mem_nil, or_false] at ht
     rcases ht with rfl | rfl | rfl <;> simp [Ex.inCube]
-  cases h : runIters Ex.undeclaredOld Ex.T Ex.Lk Ex.isInf Ex.fold Ex.chk init Ex.tapes with
+  cases h : runItersR Ex.undeclaredOld Ex.T Ex.Lk Ex.isInf Ex.fold Ex.chk init Ex.tapes with
   | none =>
-    have : (runIters Ex.undeclaredOld Ex.T Ex.Lk Ex.isInf Ex.fold Ex.chk init Ex.tapes).isSome = true := by decide
+    have : (runItersR Ex.undeclaredOld Ex.T Ex.Lk Ex.isInf Ex.fold Ex.chk init Ex.tapes).isSome = true := by decide
     rw [h] at this; cases this
   | some r =>
     obtain ⟨s', rets⟩ := r
-    have hx : (runIters Ex.undeclaredOld Ex.T Ex.Lk Ex.isInf Ex.fold Ex.chk init Ex.tapes).map (fun r => r.1.hist.x)
+    have hx : (runItersR Ex.undeclaredOld Ex.T Ex.Lk Ex.isInf Ex.fold Ex.chk init Ex.tapes).map (fun r => r.1.hist.x)
         = some [[10, 20, 30], [50, 50, 60], [40, 110, 80]] := by decide
-    have hb : (runIters Ex.undeclaredOld Ex.T Ex.Lk Ex.isInf Ex.fold Ex.chk init Ex.tapes).map (fun r => r.1.hist.b)
+    have hb : (runItersR Ex.undeclaredOld Ex.T Ex.Lk Ex.isInf Ex.fold Ex.chk init Ex.tapes).map (fun r => r.1.hist.b)
         = some [[12, 22, 32], [52, 72, 62], [52, 72, 62]] := by decide
     rw [h] at hx hb
     simp only [Option.map_some, Option.some.injEq] at hx hb
@@ -952,5 +1260,14 @@ theorem C07_old_gate_stale :
     rw [hb, hx] at this
     revert this
     decide
+
+/-- F8 (fixed in /repo 959029e), on the model: the OLD warm-up (`Model.RecSM.warmup`, left as committed) stored a batch without a single finite draw as it was -/
+theorem C07_old_warmup_stores_inf :
+    ∃ s' : St Nat Nat Nat Nat, warmup Ex.declared Ex.T Ex.Lk Ex.isInf [7, 14, 21] [] init = some s' ∧
+      s'.cur.l = some [0, 0, 0] ∧ ¬ Finite Ex.isInf s' := by
+  refine ⟨_, rfl, by decide, ?_⟩
+  intro hf
+  have := hf.1 [0, 0, 0] (by decide) 0 (by simp)
+  simp [Ex.isInf] at this
 
 end Props.C07SM
